@@ -84,7 +84,7 @@ def is_err(v):
     return isinstance(v, Enum) and v.adt == 'std::result::Result' and v.variant == 'Err'
 
 
-def batch_short_circuit(chk, lib, rule):
+def batch_short_circuit(chk, lib, rule, report_unsupported=True):
     """R5.3 / R18.4 on the batch paths: the first Err of the sink is what the entry point returns, unchanged,
     and no further sink call follows it."""
     n = 0
@@ -99,6 +99,8 @@ def batch_short_circuit(chk, lib, rule):
                     continue
                 n += 1
                 if r.outcome != 'return':
+                    if r.outcome == 'unsupported' and not report_unsupported:
+                        continue        # a construct outside the reviewed entry-point surface is reported by C09 / C14, whose subject it is
                     chk.ob(rule, "%s: batch path with a failing element returns (got %s: %s)" % (key, r.outcome, r.exc), False,
                            r.exc.where if r.exc else '', key + '-shape')
                     continue
